@@ -227,7 +227,9 @@ func bitsOf(c *cond, rows []row, params [][]byte) string {
 
 const nCols = 4
 
-func schemaYAML(searchable map[cellKey]bool, kind string, typed bool) string {
+// column kinds of the encryptor configuration: 's' searchable, 't' consistently tokenized (token_type str),
+// 'e' encrypted only; any other column of the table is plain
+func schemaYAML(kinds map[cellKey]byte, kind string, typed bool) string {
 	envl := "acrastruct"
 	if kind == "block" {
 		envl = "acrablock"
@@ -241,16 +243,24 @@ func schemaYAML(searchable map[cellKey]bool, kind string, typed bool) string {
 		}
 		first := true
 		for c := 0; c < nCols; c++ {
-			if !searchable[cellKey{t, c}] {
+			k := kinds[cellKey{t, c}]
+			if k == 0 {
 				continue
 			}
 			if first {
 				b.WriteString("    encrypted:\n")
 				first = false
 			}
-			fmt.Fprintf(&b, "      - column: c%d\n        searchable: true\n        crypto_envelope: %s\n", c, envl)
-			if typed {
-				b.WriteString("        data_type: str\n")
+			switch k {
+			case 's':
+				fmt.Fprintf(&b, "      - column: c%d\n        searchable: true\n        crypto_envelope: %s\n", c, envl)
+				if typed {
+					b.WriteString("        data_type: str\n")
+				}
+			case 't':
+				fmt.Fprintf(&b, "      - column: c%d\n        token_type: str\n        consistent_tokenization: true\n", c)
+			case 'e':
+				fmt.Fprintf(&b, "      - column: c%d\n        crypto_envelope: %s\n", c, envl)
 			}
 		}
 	}
@@ -259,19 +269,35 @@ func schemaYAML(searchable map[cellKey]bool, kind string, typed bool) string {
 
 var schemaCache = map[string]config.TableSchemaStore{}
 
-func schemaFor(colsTok, kind string, typed, mysql bool) (config.TableSchemaStore, map[cellKey]bool) {
-	searchable := map[cellKey]bool{}
+// parseKinds reads the column token `_` | `t.c;t.c:t;t.c:e` (no suffix = searchable).
+func parseKinds(colsTok string) map[cellKey]byte {
+	kinds := map[cellKey]byte{}
 	if colsTok != "_" {
 		for _, p := range strings.Split(colsTok, ";") {
+			k := byte('s')
+			if i := strings.IndexByte(p, ':'); i >= 0 {
+				k, p = p[i+1], p[:i]
+			}
 			tc := strings.Split(p, ".")
-			searchable[cellKey{core.Atoi(tc[0]), core.Atoi(tc[1])}] = true
+			kinds[cellKey{core.Atoi(tc[0]), core.Atoi(tc[1])}] = k
+		}
+	}
+	return kinds
+}
+
+func schemaFor(colsTok, kind string, typed, mysql bool) (config.TableSchemaStore, map[cellKey]bool) {
+	kinds := parseKinds(colsTok)
+	searchable := map[cellKey]bool{}
+	for k, v := range kinds {
+		if v == 's' {
+			searchable[k] = true
 		}
 	}
 	key := fmt.Sprintf("%s/%s/%v/%v", colsTok, kind, typed, mysql)
 	if s, ok := schemaCache[key]; ok {
 		return s, searchable
 	}
-	s, err := config.MapTableSchemaStoreFromConfig([]byte(schemaYAML(searchable, kind, typed)), mysql)
+	s, err := config.MapTableSchemaStoreFromConfig([]byte(schemaYAML(kinds, kind, typed)), mysql)
 	if err != nil {
 		panic("harness: schema: " + err.Error())
 	}
@@ -283,11 +309,11 @@ func schemaFor(colsTok, kind string, typed, mysql bool) (config.TableSchemaStore
 
 type session struct{ data map[string]interface{} }
 
-func (s *session) Context() context.Context        { return context.Background() }
-func (s *session) ClientConnection() net.Conn      { return nil }
-func (s *session) DatabaseConnection() net.Conn    { return nil }
-func (s *session) ProtocolState() interface{}      { return nil }
-func (s *session) SetProtocolState(interface{})    {}
+func (s *session) Context() context.Context     { return context.Background() }
+func (s *session) ClientConnection() net.Conn   { return nil }
+func (s *session) DatabaseConnection() net.Conn { return nil }
+func (s *session) ProtocolState() interface{}   { return nil }
+func (s *session) SetProtocolState(interface{}) {}
 func (s *session) GetData(k string) (interface{}, bool) {
 	v, ok := s.data[k]
 	return v, ok
@@ -316,12 +342,13 @@ type variant struct {
 	kind      string
 	crossJoin bool // FROM t0, t1 instead of JOIN
 	hexNum    bool // MySQL: 0x… instead of X'…'
+	named     bool // MySQL: placeholders spelled :vN (as the tokenizer numbers `?`) – always when one is used twice
 }
 
 func parseVariant(s string) variant {
 	n := core.AtoU64(s)
 	b := func(i uint) bool { return n>>i&1 == 1 }
-	v := variant{n: n, stmt: int(n % 5), alias: b(8), qualify: b(9), textLit: b(10), neBang: b(11), binParams: b(12), bindOrig: b(13), typed: b(14), crossJoin: b(16), hexNum: b(17)}
+	v := variant{n: n, stmt: int(n % 5), alias: b(8), qualify: b(9), textLit: b(10), neBang: b(11), binParams: b(12), bindOrig: b(13), typed: b(14), crossJoin: b(16), hexNum: b(17), named: b(18)}
 	v.kind = "struct"
 	if b(15) {
 		v.kind = "block"
@@ -638,9 +665,36 @@ func myOperand(v variant, o *operand, two bool) string {
 		}
 		return lit
 	case 'P', 'Q':
+		if v.named {
+			return fmt.Sprintf(":v%d", o.i+1)
+		}
 		return "?"
 	}
 	return "lower('x')"
+}
+
+// sharedParam: is some placeholder index used by more than one operand
+func sharedParam(c *cond) bool {
+	seen := map[int]bool{}
+	shared := false
+	var walk func(c *cond)
+	walk = func(c *cond) {
+		if c.a != nil {
+			walk(c.a)
+			walk(c.b)
+			return
+		}
+		for _, o := range []*operand{c.l, c.r} {
+			if o.kind == 'P' || o.kind == 'Q' {
+				if seen[o.i] {
+					shared = true
+				}
+				seen[o.i] = true
+			}
+		}
+	}
+	walk(c)
+	return shared
 }
 
 func myCond(v variant, c *cond, two bool) string {
@@ -757,6 +811,9 @@ func queryMySQL(v variant, hk string, kv *env.KV, colsTok string, c *cond, param
 	ctx := queryCtx()
 	two := maxTable(c) > 0
 	vv := v
+	if sharedParam(c) {
+		vv.named = true // `?` cannot name a parameter twice
+	}
 	if vv.stmt == 1 || vv.stmt == 2 {
 		vv.alias = false // UPDATE/DELETE … AS alias is not MySQL syntax the parser takes
 	}
@@ -770,6 +827,14 @@ func queryMySQL(v variant, hk string, kv *env.KV, colsTok string, c *cond, param
 	st, err := parser.Parse(text)
 	if err != nil {
 		panic("harness: the rewritten statement does not parse: " + text + ": " + err.Error())
+	}
+	if vv.named {
+		// the serialiser prints every placeholder as `?`, so the text of a rewritten statement numbers them by
+		// position again; `:vN` is how the tokenizer names `?` internally, no MySQL client can send it – the
+		// named spelling only serves to reach OnBind with one placeholder listed twice: read the tree back
+		if st, err = obj.Statement(); err != nil {
+			panic("harness: rewritten statement: " + err.Error())
+		}
 	}
 	dc := myReadCond(myWhere(vv, st, two))
 	var bvs []base.BoundValue
@@ -809,4 +874,3 @@ func init() {
 		return queryMySQL(v, a[1], kv, a[6], c, params, rows)
 	})
 }
-
